@@ -127,6 +127,7 @@ class MatchDistancePre(Contract):
         for tr in alive:
             run.assume(to_z3(tr.fields["droplets"].length) > 0)     # tracks are never empty
         self.ctx = (run, em, alive)
+        run.ghost["frame_emulsion"] = em
         return dict(emulsion=em, tracks_alive=alive, time=run.input_real("time"))
 
     def closure(self, engine, run, fi, a, case):
@@ -191,6 +192,26 @@ class MatchDistancePre(Contract):
 
     def concrete_run(self, case, inputs):
         return run_tracking(inputs)
+
+
+@register
+class FrameEmulsionData(Contract):
+    """`emulsion.data` of a FRAME of a time course inside a matcher: frames are arbitrary emulsions and may mix droplet classes, for which
+    Emulsion.data raises TypeError (its verified contract) - the matchers must read positions droplet by droplet"""
+    key = f"{co.EM}:Emulsion.data"
+    variant = "frame"
+    call_site = True
+
+    def cases(self):
+        return []
+
+    def apply(self, engine, run, fi, args, kwargs):
+        if run.ghost.get("frame_emulsion") is None or args[0] is not run.ghost["frame_emulsion"]:
+            return NotImplemented
+        run.oblige("requires of Emulsion.data: all members have ONE droplet class - not established for a frame of a time course (any emulsion, "
+                   "e.g. a spherical next to a diffuse droplet): tracking such a course would raise TypeError", z3.BoolVal(False), kind="requires",
+                   assume_after=False)
+        raise SymRaise(SExc("TypeError", ("Emulsion data cannot be stored contiguously",)))
 
 
 class _Truncate(LoopSpec):
